@@ -27,6 +27,7 @@ CONSTANTS L,          \* length of the reference window (= of the contig): trunc
           Mode,       \* "context": all references, one full-span fragment | "geometry": all mate geometries
           GeomRefs,   \* references used in geometry mode, by name (see RefByName)
           MaxFrags,   \* 1 or 2 fragments in geometry mode
+          DistMode,   \* "zero": default dove distances | "mixed": also (dove_R1_distance, dove_R2_distance) = (1,0), (0,1)
           Variant
 
 Bases == {"A", "C", "G", "T"}
@@ -74,7 +75,11 @@ Inward(f)  == HasMate(f, 1) /\ HasMate(f, 2) /\ MateOf(f, 1).rev # MateOf(f, 2).
 FwdMate(f) == IF MateOf(f, 1).rev THEN MateOf(f, 2) ELSE MateOf(f, 1)
 RevMate(f) == IF MateOf(f, 1).rev THEN MateOf(f, 1) ELSE MateOf(f, 2)
 (* the mate-overlap-safe span: from the start of the forward mate to the last base of the reverse mate *)
-InSafe(f, p) == Inward(f) /\ FwdMate(f).start <= p /\ p <= RevMate(f)["end"] - 1
+(* With configured dove distances (methylation_consensus_kwargs: dove_R1_distance / dove_R2_distance, fields dr1 / dr2 of  *)
+(* the fragment) the span is shortened by that many bases at the outer end of the respective mate.                       *)
+DoveDist(f, r) == IF r.mate = 1 THEN f.dr1 ELSE f.dr2
+InSafe(f, p) == Inward(f) /\ FwdMate(f).start + DoveDist(f, FwdMate(f)) <= p
+                          /\ p <= RevMate(f)["end"] - 1 - DoveDist(f, RevMate(f))
 ReadCalls(r, p) == { << r.al[i].b, r.al[i].q >> : i \in { j \in DOMAIN r.al : r.al[j].p = p } }
 FragCalls(f, p) == UNION { ReadCalls(f.reads[i], p) : i \in DOMAIN f.reads }
 (* the fragment's call (C13): the higher-quality mate; equal quality and different bases, or N: no call *)
@@ -156,8 +161,8 @@ ExpectedDomain(ref, conv, frags) ==
 (* Scenarios of the bounded model.  A model read is ungapped: [mate, rev, start, seq, qual].     *)
 AbsRead(r) == [ mate |-> r.mate, rev |-> r.rev, start |-> r.start, end |-> r.start + Len(r.seq),
                 al |-> [ i \in DOMAIN r.seq |-> [ p |-> r.start + i - 1, b |-> r.seq[i], q |-> r.qual[i] ] ] ]
-AbsFrag(f) == [ reads |-> [ i \in DOMAIN f.reads |-> AbsRead(f.reads[i]) ] ]
-AbsFrags(fs) == [ i \in DOMAIN fs |-> AbsFrag(fs[i]) ]
+AbsFrag(f, dr1, dr2) == [ reads |-> [ i \in DOMAIN f.reads |-> AbsRead(f.reads[i]) ], dr1 |-> dr1, dr2 |-> dr2 ]
+AbsFrags(fs, dr1, dr2) == [ i \in DOMAIN fs |-> AbsFrag(fs[i], dr1, dr2) ]
 
 (* base shown by a read at reference position p under an observation pattern *)
 ReadBase(ref, p, t, pat) ==
@@ -177,11 +182,12 @@ MkSingle(ref, t, rev, a, b, pf, qf) == [ reads |-> << MkRead(ref, t, 1, rev, a, 
 Intervals == { <<a, b>> \in (0 .. L) \X (0 .. L) : a < b }
 QualPairs == { <<1, 0>>, <<0, 1>>, <<0, 0>> }     \* phred 0 is a legal quality: it must win over "no call" and tie with itself
 Pats2 == {"keep", "conv"}
-Scn(ref, rev, conv, fs) == [ ref |-> ref, rev |-> rev, conv |-> conv, frags |-> fs ]
+Scn(ref, rev, conv, fs, dd) == [ ref |-> ref, rev |-> rev, conv |-> conv, frags |-> fs, dr1 |-> dd[1], dr2 |-> dd[2] ]
+DistPairs == IF DistMode = "mixed" THEN { <<0, 0>>, <<1, 0>>, <<0, 1>> } ELSE { <<0, 0>> }
 (* context mode: every reference window over the alphabet, one fragment whose mates both span the whole contig *)
 IsContextScenario(s) ==
     \E ref \in [1 .. L -> Alphabet], rev \in BOOLEAN, conv \in {"F", "R"}, pat \in {"keep", "conv", "other"} :
-        s = Scn(ref, rev, conv, << MkPair(ref, Target(rev, conv), rev, 0, L, 0, L, pat, pat, 2, 2) >>)
+        s = Scn(ref, rev, conv, << MkPair(ref, Target(rev, conv), rev, 0, L, 0, L, pat, pat, 2, 2) >>, <<0, 0>>)
 (* geometry mode: references in which every position is a target for some strand/convention; every placement *)
 (* of the two mates (overlapping, dove-tailed on either side, disjoint, outward), every quality relation,     *)
 (* single-end fragments, and optionally a second fragment of the same molecule (same read-1 interval)         *)
@@ -190,17 +196,17 @@ RefByName(n) == CASE n = "allC" -> [ i \in 1 .. L |-> "C" ]
                   [] n = "CG"   -> [ i \in 1 .. L |-> IF i % 2 = 1 THEN "C" ELSE "G" ]
                   [] n = "GC"   -> [ i \in 1 .. L |-> IF i % 2 = 1 THEN "G" ELSE "C" ]
 IsGeometryScenario(s) ==
-    \E n \in GeomRefs, rev \in BOOLEAN, conv \in {"F", "R"} :
+    \E n \in GeomRefs, rev \in BOOLEAN, conv \in {"F", "R"}, dd \in DistPairs :
         LET ref == RefByName(n) t == Target(rev, conv) IN
-        \/ \E ab \in Intervals, pf \in Pats2 : s = Scn(ref, rev, conv, << MkSingle(ref, t, rev, ab[1], ab[2], pf, 2) >>)
+        \/ \E ab \in Intervals, pf \in Pats2 : s = Scn(ref, rev, conv, << MkSingle(ref, t, rev, ab[1], ab[2], pf, 2) >>, dd)
         \/ \E ab \in Intervals, cd \in Intervals, pf \in Pats2, pr \in Pats2, qq \in QualPairs :
               LET f1 == MkPair(ref, t, rev, ab[1], ab[2], cd[1], cd[2], pf, pr, qq[1], qq[2]) IN
-              \/ s = Scn(ref, rev, conv, << f1 >>)
+              \/ s = Scn(ref, rev, conv, << f1 >>, dd)
               \/ /\ MaxFrags >= 2
                  /\ \E xy \in Intervals, pm \in Pats2 :
                       s = Scn(ref, rev, conv,
                               << f1, IF rev THEN MkPair(ref, t, rev, xy[1], xy[2], cd[1], cd[2], pm, pm, 1, 2)
-                                            ELSE MkPair(ref, t, rev, ab[1], ab[2], xy[1], xy[2], pm, pm, 2, 1) >>)
+                                            ELSE MkPair(ref, t, rev, ab[1], ab[2], xy[1], xy[2], pm, pm, 2, 1) >>, dd)
 IsScenario(s) == IF Mode = "context" THEN IsContextScenario(s) ELSE IsGeometryScenario(s)
 
 ---------------------------------------------------------------------------------------------------
@@ -262,9 +268,11 @@ FragmentConsensus ==
                    e1 == r1.start + Len(r1.seq)
                    e2 == r2.start + Len(r2.seq)
                    inward == r1.rev # r2.rev          \* otherwise ValueError, swallowed: fragment contributes nothing
-                   lo == IF r1.rev THEN r2.start ELSE r1.start
-                   hi == IF Variant = "safe_end_off_by_one" THEN (IF r1.rev THEN e1 ELSE e2)
-                         ELSE (IF r1.rev THEN e1 - 1 ELSE e2 - 1)
+                   (* sequtils.py:411-414: start = forward mate's start + its dove distance, end = reverse mate's end - its distance - 1 *)
+                   lo == IF r1.rev THEN (IF Variant = "dove_distance_sign" THEN r2.start - scn.dr2 ELSE r2.start + scn.dr2)
+                         ELSE r1.start + scn.dr1
+                   hi == IF Variant = "safe_end_off_by_one" THEN (IF r1.rev THEN e1 - scn.dr1 ELSE e2 - scn.dr2)
+                         ELSE (IF r1.rev THEN e1 - scn.dr1 - 1 ELSE e2 - scn.dr2 - 1)
                    bounded == Variant # "dove_unsafe"
                    d1 == ReadDict(r1, lo, hi, bounded)
                    d2 == ReadDict(r2, lo, hi, bounded)
@@ -353,8 +361,8 @@ Spec == Init /\ [][Next]_vars
 (* Properties of the model: the P-level clauses on the (partial) result in every reachable state *)
 (* call clauses are evaluated while the calls are being produced, read clauses while the reads are  *)
 (* being tagged (later states carry the same calls / reads), the whole-molecule verdict at the end *)
-PT == Target(MolRev(AbsFrags(scn.frags)), scn.conv)
-PF == AbsFrags(scn.frags)
+PF == AbsFrags(scn.frags, scn.dr1, scn.dr2)
+PT == Target(MolRev(PF), scn.conv)
 (* (each state with pc = "call" checks the call added last; every prefix is a reachable state)     *)
 NoCallClause(names) == (pc = "call" /\ calls # Empty) =>
                            LET p == MaxOf(DOMAIN calls) IN CallClause(scn.ref, PT, PF, p, calls[p]) \notin names
